@@ -210,6 +210,22 @@ func c17Program(run *common.Run, prog int) {
 	ids := []string{"t", "u"}
 	famPool := []string{"f1", "f2", "g"}
 	ctx := gen.FilterCtx{Keys: gen.Keys, Fams: famPool, Quals: gen.Quals, Vals: gen.Vals, TSs: []int64{0, 1000, 2000, 3000}, MaxCells: 6}
+	// data shape of the program: colliding small universe (default), wide columns (64 timestamps in 4 columns) or
+	// many columns (54 qualifiers)
+	shape := gen.Opts{}
+	switch prog % 8 {
+	case 3, 7:
+		shape.Wide = 64
+		run.Count("wide_column_programs", 1)
+	case 5:
+		pool := []string{""}
+		for c := 0; c < 50; c++ {
+			pool = append(pool, fmt.Sprintf("c%02d", c*2))
+		}
+		shape = gen.Opts{Wide: 4, QualPool: append(pool, "c31", "c33", "c35")}
+		run.Count("many_column_programs", 1)
+	}
+	opts := func(invalidPct int) gen.Opts { o := shape; o.InvalidPct = invalidPct; return o }
 	var steps []string
 	var sawPartialFail, sawLimit, sawDrop, sawRecreate bool
 	created := map[string]int{}
@@ -293,7 +309,7 @@ func c17Program(run *common.Run, prog int) {
 			}
 		case k < 18:
 			key := common.Pick(r, gen.Keys)
-			muts := gen.Mutations(r, gen.Opts{InvalidPct: 5}, 1, 4)
+			muts := gen.Mutations(r, opts(5), 1, 4+shape.Wide/8)
 			for i := range muts {
 				if muts[i].Fam != "" && r.Chance(1, 4) {
 					muts[i].Fam = "g"
@@ -305,7 +321,7 @@ func c17Program(run *common.Run, prog int) {
 			var entries []drive.Entry
 			ne := r.Range(1, 4)
 			for i := 0; i < ne; i++ {
-				entries = append(entries, drive.Entry{Key: common.Pick(r, gen.Keys), Muts: gen.Mutations(r, gen.Opts{InvalidPct: 8}, 1, 3)})
+				entries = append(entries, drive.Entry{Key: common.Pick(r, gen.Keys), Muts: gen.Mutations(r, opts(8), 1, 3+shape.Wide/16)})
 			}
 			desc = fmt.Sprintf("MutateRows(%s,%d entries)", id, ne)
 			for _, e := range entries {
@@ -321,7 +337,7 @@ func c17Program(run *common.Run, prog int) {
 			if r.Chance(4, 5) {
 				pred = c17Tree(r, ctx, 3)
 			}
-			tm, fm := gen.Mutations(r, gen.Opts{InvalidPct: 5}, 0, 3), gen.Mutations(r, gen.Opts{InvalidPct: 5}, 0, 3)
+			tm, fm := gen.Mutations(r, opts(5), 0, 3), gen.Mutations(r, opts(5), 0, 3)
 			desc = fmt.Sprintf("CheckAndMutateRow(%s,%q,%s,%s,%s)", id, key, pred, model.MutsString(tm), model.MutsString(fm))
 			do = func(sv *drive.Srv) string {
 				st, m := drive.CheckAndMutate(sv.Data, name, key, pred, tm, fm)
